@@ -269,7 +269,13 @@ pub fn check_clean(repo: &Repo) -> RusticResult<bool> {
 
 /// messages of the error-level findings of a full check
 pub fn check_errors(repo: &Repo) -> RusticResult<Vec<String>> {
-    let res = repo.check(CheckOptions::default().read_data(true))?;
+    check_errors_opts(repo, false)
+}
+
+/// as check_errors; `trust_cache` only says that cached copies need no verification, so on a repository
+/// opened without a cache it must not change any verdict
+pub fn check_errors_opts(repo: &Repo, trust_cache: bool) -> RusticResult<Vec<String>> {
+    let res = repo.check(CheckOptions::default().read_data(true).trust_cache(trust_cache))?;
     Ok(res
         .0
         .iter()
